@@ -1160,6 +1160,19 @@ class SymEval:
         return [p]
 
     def s_AugAssign(self, s, p):
+        t = s.target
+        if isinstance(t, ast.Subscript):
+            # container and index are evaluated once, as Python does
+            base = self.ev(t.value, p)
+            idx = self.index(t.slice, p)
+            if is_arr(base) or isinstance(base, (list, dict, PyStub)):
+                try:
+                    cur = base[idx]
+                    v = self.ev(s.value, p)
+                    base[idx] = BIN[type(s.op)](cur, v)
+                except (KeyError, IndexError, ValueError, TypeError) as e:
+                    raise Opaque('augmented store into %s: %s' % (norm(t), e))
+                return [p]
         load = ast.copy_location(_as_load(s.target), s.target)
         cur = self.ev(load, p)
         v = self.ev(s.value, p)
